@@ -7,7 +7,7 @@ import itertools, json, math
 from harness.common import fhex
 PID = "C07"; COQ_TARGET = "C07"
 RULE = ("exhaustive: {stochastic} x {delay None/False/True} x {safe} x {volume False/True/1.7/Volume()/dividing StochasticTimeThresholdVolume} x {dataframe, result object} x {Model, pre-built interface} = 240 "
-        "combinations x 5 models (with/without delayed reactions, with/without assignment rules, rules on the dt schedule), uniform grid from 0; non-trivial = every combination")
+        "combinations x 6 models (with/without delayed reactions, with/without assignment rules, rules on the dt schedule, rules scheduled at the start), uniform grid from 0; non-trivial = every combination")
 TRUSTED = ["hand model coq/Model/Dispatch.v tied by exhaustive correspondence over the option lattice"]
 ASSUMPTIONS = ["numeric volumes are positive (quantifier)", "shape / label / first-row clauses are decided by the harness oracle on the lattice; mechanised only for the SSA loop's row count"]
 
@@ -20,11 +20,15 @@ MODELS = {
  # (seeded change S4_C07: the delay simulator started with rule_step = 0)
  "dtrules": {"species": ["A", "B", "R", "D1"], "reactions": [[["A"], ["B"], "massaction", {"k": 0.8}], [["B"], [], "massaction", {"k": 0.3}, "fixed", [], ["A"], {"delay": 0.4}]],
              "rules": [["assignment", {"equation": "R = 2*A + 1"}], ["assignment", {"equation": "D1 = 3*A + 2"}, "dt"]], "x0": {"A": 9.0, "B": 2.0, "R": 0.0, "D1": 0.0}},
+ # ... and so are rules with frequency "start" (time 0) and rules scheduled for the first requested time (seeded change S5_C07: the
+ # volume path compared the time flag only when it was > 0)
+ "startrules": {"species": ["A", "B", "ST", "S0"], "reactions": [[["A"], ["B"], "massaction", {"k": 0.8}]],
+                "rules": [["assignment", {"equation": "ST = 5*A + 1"}, "start"], ["assignment", {"equation": "S0 = A + B"}, 0.0]], "x0": {"A": 9.0, "B": 2.0, "ST": 0.0, "S0": 0.0}},
  "delay+rules": {"species": ["A", "B", "R"], "reactions": [[["A"], [], "massaction", {"k": 0.8}, "gamma", [], ["B"], {"k": 2.0, "theta": 0.2}]],
                  "rules": [["assignment", {"equation": "R = A + B"}]], "x0": {"A": 9.0, "B": 2.0, "R": 0.0}},
 }
 FIRST_ROW = {"plain": {"A": 9.0, "B": 2.0}, "delay": {"A": 9.0, "B": 2.0}, "rules": {"A": 9.0, "B": 2.0, "R": 19.0, "T2": 28.0}, "delay+rules": {"A": 9.0, "B": 2.0, "R": 11.0},
-             "dtrules": {"A": 9.0, "B": 2.0, "R": 19.0, "D1": 29.0}}
+             "dtrules": {"A": 9.0, "B": 2.0, "R": 19.0, "D1": 29.0}, "startrules": {"A": 9.0, "B": 2.0, "ST": 46.0, "S0": 11.0}}
 VOLS = ["off", "true", "num", "obj", "divobj"]   # divobj: an initialised StochasticTimeThresholdVolume that divides inside the window
 
 def gen_cases(seed, tier):
